@@ -159,3 +159,68 @@ Example C14_nonvacuous :
   | None => False
   end.
 Proof. vm_compute. reflexivity. Qed.
+
+(* ---- the main theorems applied: every hypothesis of C14_add_after_ens, C14_found and C14_frame discharged
+   on the loaded document {"k":[9],"x":{"z":0}} and the add of {"v":1} at /a~1b/2/c/1, none of whose parents
+   exists, with EnsurePathExistsOnAdd on (and, to show that the other options are free, the remove option on
+   and a copy-size limit).  ens creates the array a/b padded with two nulls, the object at 2, the array c
+   padded with one null; the theorems yield: the add succeeds with exactly that document, the value is found
+   at the path, and the old location /k/0 still holds 9. ---- *)
+From JP Require Abs StrInv PointerDomain.
+Import PointerDomain.
+Import Abs.
+Definition C14_ex_doc := B "{""k"":[9],""x"":{""z"":0}}".
+Definition C14_ex_patch := B "[{""op"":""add"",""path"":""/a~1b/2/c/1"",""value"":{""v"":1}}]".
+Definition C14_ex_o := mkOpts false 7 true true false [] None.
+Definition C14_ex_t : tjson := Eval vm_compute in match parse C14_ex_doc with Some t => t | None => TNull end.
+Definition C14_ex_op : operation := Eval vm_compute in match api_decode C14_ex_patch with Some [op] => op | _ => [] end.
+Definition C14_ex_c : con := Eval vm_compute in match load_doc C14_ex_o C14_ex_t with Ok (RCon c) => c | _ => KAry NNil [] end.
+Definition C14_ex_r := B "a~1b/2/c/1".
+Definition C14_ex_j1 : ojson :=
+  Eval vm_compute in match ens (dia C14_ex_o) (ptoks C14_ex_r) (den C14_ex_t) with Some j => j | None => ONull end.
+Definition C14_ex_result : ojson :=
+  den (TObj [(B "k", TArr [TNum (B "9")]); (B "x", TObj [(B "z", TNum (B "0"))]);
+             (B "a/b", TArr [TNull; TNull; TObj [(B "c", TArr [TNull; TObj [(B "v", TNum (B "1"))]])]])]).
+
+Example C14_main_theorem_applies :
+  exists st', op_add C14_ex_o (mkState (RCon C14_ex_c) 0) C14_ex_op = Ok st' /\
+    sval st' = C14_ex_result /\ sgood st' /\ s_acc st' = 0%Z /\
+    get_at (dia C14_ex_o) [B "a/b"; B "2"; B "c"; B "1"] (sval st') = Rfc6902.Ok (den (TObj [(B "v", TNum (B "1"))])) /\
+    get_at (dia C14_ex_o) [B "k"; B "0"] (sval st') = Rfc6902.Ok (ONum (B "9")).
+Proof.
+  assert (P : parse C14_ex_doc = Some C14_ex_t) by (vm_compute; reflexivity).
+  assert (G : cgood C14_ex_c /\ cval C14_ex_c = den C14_ex_t).
+  { destruct (load_doc_good C14_ex_o C14_ex_doc C14_ex_t P eq_refl eq_refl) as [c [L [G V]]].
+    vm_compute in L. injection L as <-. split; assumption. }
+  destruct G as [G V].
+  assert (VG : val_good C14_ex_op).
+  { assert (Dp : Forall op_dom [C14_ex_op])
+      by (apply (PointerDomain.decoded_in_domain_op_dom C14_ex_patch); vm_compute; reflexivity).
+    inversion Dp as [|? ? D _]. exact (proj1 D). }
+  assert (CT : Forall ctok (map decode_token (split_slash C14_ex_r))).
+  { assert (ctok_of : forall t, token_dom t = true -> forallb (fun c => bn c <? 128) (decode_token t) = true ->
+                                canonical_neg (decode_token t) = None -> ctok (decode_token t)).
+    { intros t A B0 C. split; [apply PointerDomain.token_dom_iff; split; [exact A | apply StrInv.utf8_ascii; exact B0] | exact C]. }
+    change (split_slash C14_ex_r) with [B "a~1b"; B "2"; B "c"; B "1"]. cbn [map].
+    repeat (apply Forall_cons; [apply ctok_of; vm_compute; reflexivity|]). apply Forall_nil. }
+  assert (EN : ens (dia C14_ex_o) (ptoks C14_ex_r) (cval C14_ex_c) = Some C14_ex_j1) by (rewrite V; vm_compute; reflexivity).
+  pose proof (C14_add_after_ens C14_ex_o (mkState (RCon C14_ex_c) 0) C14_ex_op C14_ex_r C14_ex_c C14_ex_j1
+                eq_refl G eq_refl eq_refl CT VG EN) as H.
+  assert (R : at_parent (dia C14_ex_o) (ptoks C14_ex_r) C14_ex_j1 (add_leaf (dia C14_ex_o) (ref_value C14_ex_op))
+              = Rfc6902.Ok C14_ex_result) by (vm_compute; reflexivity).
+  rewrite R in H. destruct H as [st' [H1 [H2 [H3 H4]]]]. exists st'.
+  split; [exact H1|]. split; [exact H2|]. split; [exact H3|]. split; [exact H4|]. split.
+  - assert (ND : nodash (path_key C14_ex_r)) by (vm_compute; discriminate).
+    exact (C14_found C14_ex_o (mkState (RCon C14_ex_c) 0) C14_ex_op C14_ex_r C14_ex_c C14_ex_j1 st'
+             eq_refl G eq_refl eq_refl CT VG EN ND H1).
+  - apply (C14_frame C14_ex_o (mkState (RCon C14_ex_c) 0) C14_ex_op C14_ex_r C14_ex_c C14_ex_j1 st'
+             eq_refl G eq_refl eq_refl CT VG EN).
+    + change (path_parts C14_ex_r) with [B "a~1b"; B "2"; B "c"]. cbn [map].
+      repeat (apply Forall_cons; [vm_compute; discriminate|]). apply Forall_nil.
+    + rewrite V. vm_compute. reflexivity.
+    + exact H1.
+    + repeat (apply Forall_cons; [vm_compute; reflexivity|]). apply Forall_nil.
+    + unfold sval. cbn [s_root]. rewrite V. vm_compute. reflexivity.
+    + intros [s Hs]. vm_compute in Hs. discriminate Hs.
+Qed.
+Print Assumptions C14_main_theorem_applies.
